@@ -1090,7 +1090,11 @@ class Config(DataProxy):
         # want the union of the two.
         new_defaults = copy_dict(self._defaults)
         if into is not None:
-            merge_dicts(new_defaults, into.global_defaults())
+            # NOTE: our own (possibly user-supplied) defaults win; the target
+            # class only contributes keys/subtrees we do not have yet.
+            new_defaults = merge_dicts(
+                copy_dict(into.global_defaults()), new_defaults
+            )
         # The kwargs.
         return dict(
             defaults=new_defaults,
